@@ -147,7 +147,7 @@ def worker_main(argv: list[str]) -> int:
 
 
 def run_known_and_replays(ctx, mod, do_replays: bool) -> None:
-    from vf.core import Violation, load_known_findings, unjson
+    from vf.core import CaseTimeout, Violation, load_known_findings, unjson
     subs = mod.SUBS
     for kf in load_known_findings():
         if kf["property"] != ctx.prop or kf.get("status") != "open":
@@ -190,6 +190,8 @@ def run_known_and_replays(ctx, mod, do_replays: bool) -> None:
                 ctx.rec.violations.append(
                     {"sub": body["sub"], "replay": path,
                      "message": str(v)[:600]})
+            except CaseTimeout:  # a watchdog hit is never a verdict
+                ctx.rec.inconc("replay_watchdog")
             finally:
                 ctx.replaying = False
 
